@@ -364,7 +364,8 @@ func (m *Model) RunKinds(s *Sink, rule string) {
 			seen := map[*ssa.BasicBlock]bool{}
 			var stack []*ssa.BasicBlock
 			for _, sc := range li.header.Succs {
-				if li.body[sc] {
+				// (in a rotated loop the header is the first block of the body and may end in the export test itself)
+				if li.body[sc] && !skipEdge[[2]*ssa.BasicBlock{li.header, sc}] && !isStore[li.header] {
 					stack = append(stack, sc)
 				}
 			}
